@@ -296,6 +296,16 @@ func runLinear(c *harness.Ctx) harness.Result {
 		bases = append(bases, name)
 		ins = append(ins, input{name, p, -1})
 	}
+	if c.Index%100 == 7 && !self {
+		// many sources (pprof fetches and merges them in batches): a few profiles named over and over
+		distinct := len(srcs)
+		for want := []int{129, 131, 201, 257, 128, 130}[r.Intn(6)]; len(srcs) < want; {
+			name := fmt.Sprintf("s%d", len(srcs)%distinct)
+			srcs = append(srcs, name)
+			ins = append(ins, input{name, profs[name], 1})
+		}
+		c.Stat("runs_with_over_128_sources", 1)
+	}
 	if dup && !self {
 		// the same source named twice counts twice
 		srcs = append(srcs, srcs[0])
@@ -433,6 +443,15 @@ func runNormalize(c *harness.Ctx) harness.Result {
 	nfn := 2 + r.Intn(3)
 	types := [][2]string{{"n", "count"}, {"t", "nanoseconds"}}
 	src, base := genOne(r, types, nfn), genOne(r, types, nfn)
+	if r.Intn(4) == 0 {
+		// seconds of CPU time in nanoseconds: value x total no longer fits in 63 bits
+		for _, q := range []*profile.Profile{src, base} {
+			for _, sm := range q.Sample {
+				sm.Value[1] *= 700000001
+			}
+		}
+		c.Stat("normalize_runs_with_seconds_of_ns", 1)
+	}
 	if r.Intn(3) == 0 {
 		// make one column's totals equal (ratio exactly 1)
 		var ts, tb int64
